@@ -170,7 +170,10 @@ def engine_check(ctx, modules, profiles, oracle_props, what, assumptions, real_p
     if ctx.tier == "thorough" and not ctx.tie_broken:
         leanchecker(ctx, modules)
     known_open, _fixed = load_known_findings()
-    known_for_prop = {k["quirk"]: k for k in known_open if k.get("property") == ctx.prop and "quirk" in k}
+    # findings listed for this property first; a check that also evaluates the oracle of related properties
+    # (e.g. C12 looks at restart invisibility and counts) attributes their violations to their listed findings
+    known_for_prop = {k["quirk"]: k for k in known_open if k.get("property") in oracle_props and "quirk" in k}
+    known_for_prop.update({k["quirk"]: k for k in known_open if k.get("property") == ctx.prop and "quirk" in k})
     want = set(oracle_props) | {"ANY"}
     results = []
     bins = {}
@@ -227,7 +230,7 @@ def engine_check(ctx, modules, profiles, oracle_props, what, assumptions, real_p
     for q, h in known_hits.items():
         kf = known_for_prop[q]
         ctx.known.append("KNOWN-FINDING: property=%s quirk=%s %s [observed in %d program(s) of this run, e.g. %s]" % (
-            ctx.prop, q, kf.get("what", ""), h["count"], h["example"][1]["msg"][:160]))
+            kf.get("property", ctx.prop), q, kf.get("what", ""), h["count"], h["example"][1]["msg"][:160]))
     # new violations -> shrink the first, write replays
     if new_viol:
         byprog = collections.OrderedDict()
@@ -346,14 +349,14 @@ def check_c02(ctx):
     if ctx.replay:
         do_replay(ctx, mods, ["C02"])
     engine_check(ctx, mods,
-                 [("peek", 500, 8000), ("seq", 150, 2000)],
+                 [("peek", 500, 8000), ("seq", 150, 2000), ("reclaim", 120, 2000)],
                  ["C02"],
                  "random programs in which 45% of the reads are peeks and 35% of the batch reads are offset-addressed (offsets at every entry "
                  "boundary +-1, inside headers, inside payloads, beyond the end; checkpoint true and false) interleaved with appends and consuming "
                  "reads; every peek is checked against the FIFO oracle (= what the consuming read returns) and counts are queried throughout; "
                  "offset reads are checked to return suffixes of appended entries in append order; non-trivial as for C01",
-                 ENGINE_ASSUME + ["reclamation bookkeeping is not observed by this check on the implementation (no tracker hook yet); "
-                                  "model-level theorem C02_batch_peek_reclaim_neutral only"],
+                 ENGINE_ASSUME + ["which stored data the engine may reclaim is observed on the implementation through the tracker tuples (`trks`) and the reclaimer's "
+                                  "victims (`reclaim`) in the `reclaim` profile, and compared with the model's after peeks and offset reads"],
                  real_profiles=[("peek", 10, 100)])
 
 
@@ -443,3 +446,21 @@ def check_c04(ctx):
                  ENGINE_ASSUME[:1] + ["injected faults are the hook's: an entry write reports failure without (mmap) or after (io_uring completion override) having been "
                                       "performed; real short writes of the kernel are not produced",
                                       "concurrent readers during a batch are C05's model"])
+
+
+def check_c12(ctx):
+    mods = ["WalrusVerif.Props.C12"]
+    if ctx.replay:
+        do_replay(ctx, mods, ["C12", "C06", "C15"])
+    engine_check(ctx, mods,
+                 [("reclaim", 220, 4000)],
+                 ["C12", "C06", "C15"],
+                 "reclamation-heavy histories (50-140 operations + drain + final restart) over 3 topics in the small geometry (4 blocks per file: a file is fully "
+                 "allocated after 4 block allocations), entries of a third of a block to a full block, consuming reads, peeks (25%), offset reads, repeated empty "
+                 "polls at block ends, clean reopen and process restarts; after ~14% of the operations the harness observes the reclamation bookkeeping of the real "
+                 "engine through hook H3 - `trks` (locked, checkpointed, total, fully-allocated of every WAL file), `reclaim` (the files the reclaimer's pass deletes; "
+                 "deletion requests are captured and executed synchronously), `ls` (directory listing) - and compares them with the model's; oracle: FIFO/count oracle "
+                 "across the restarts (an unconsumed entry that disappears with a deleted file shows as a lost entry after the next restart); "
+                 "non-trivial = distinct program that rotated a block, reopened or had a rejected operation",
+                 ENGINE_ASSUME + ["the reclaimer's 1000-tick period is replaced by a synchronous pass (hook H3: capture_deletions/run_reclaimer); its timing is not explored",
+                                  "production geometry (100 blocks per 1 GiB file) is covered by the same model with the generated constants, not by runs of this check"])
